@@ -4,4 +4,9 @@ use aelys_sema::TypedProgram;
 pub trait OptimizationPass {
     fn name(&self) -> &'static str;
     fn run(&mut self, program: &mut TypedProgram) -> OptimizationStats;
+    /// The program is one unit of a session (a REPL input compiled against a live VM): a later
+    /// unit may bind any of its top-level names again, and code of this unit that runs after
+    /// that - the bodies of its functions and lambdas - must see the new binding. Only the
+    /// passes that replace a top-level name by its definition care.
+    fn set_top_level_open(&mut self, _open: bool) {}
 }
